@@ -87,7 +87,16 @@ CHECKS['C19'] = dict(engine='hypothesis/grdrv (history command)', technique='pro
          'slots in the same order with prev the inverse, values finite, glyphs unchanged without a justification pass, sanitizers silent. Known finding KF2 excluded by construction. Exploration level.',
     note='Trusted: line-state observation in harness/drv_scenarios.h; watchdog confirmation (3x60 s).', ref='5/C19')
 
-NOT_YET = {}
+CHECKS['C16'] = dict(engine='enum_face sweep + fz_face/fz_shape (libFuzzer) + hypothesis/grdrv (history command)', technique='instrumented table provider (borrow ledger, free-on-release) as oracle under fault enumeration, coverage-guided fuzzing and stateful property-based testing; LeakSanitizer at quiescence',
+    text='Every table handed to the library is an exact-size heap copy tracked in a ledger: exactly-once release, nothing outstanding after destroy or failed load, no get_table after '
+         'preloadAll construction, freed-on-release buffers (use after release = ASan report), LSan at quiescence; driven by the corruption sweep, two fuzz campaigns and generated call histories. Exploration level.',
+    note='Trusted: harness/memface.h ledger; LeakSanitizer.', ref='5/C16')
+CHECKS['C17'] = dict(engine='pbt_zones + pbt_coll (in-process property-based tests on the real classes)', technique='model-based property-based testing of the interval set (operation sequences vs interval model, shrinking by operation removal) and of the colliders (generated arrangements vs independent separating-axis octabox test)',
+    text='Zones invariants and the no-excluded-offer rule over ~25 M generated operations per quick run; ShiftCollider/KernCollider on ~250 k generated arrangements over two Awami fonts judged by a limit clamp '
+         'and an independent octabox overlap test; known finding KF3 (LTR with accumulated x offset) recognised as its own generator class. Exploration level.',
+    note='Trusted: oracle geometry in harness/pbt_coll.cpp (reach rule = documented short-circuit). Pass-level policy is outside (property is per fixing step).', ref='5/C17')
+
+NOT_YET = {'C09': 'check not built yet in this session (TSan harness planned, DESIGN 5/C09); the technique applies at exploration level'}
 
 def main():
     props = [json.loads(l) for l in open(os.path.join(VERIF, 'properties.jsonl'))]
